@@ -72,9 +72,12 @@ Theorem C18_children_conditional : forall g t fin draw g' rel canc,
 Proof. exact notify_one. Qed.
 Print Assumptions C18_children_conditional.
 
-Theorem C18_ready_to_run : forall terminal sts s,
-  is_ready_to_run terminal sts s = true <->
-  (if terminal then exists b, In b sts /\ b = true else forall b, In b sts -> b = true) /\
+Theorem C18_ready_to_run : forall (A : Type) (complete_of : A -> bool) (state_of : A -> task_state) terminal (ps : list A) s,
+  is_ready_to_run complete_of state_of terminal ps s = true <->
+  (if terminal
+   then (exists p, In p ps /\ complete_of p = true) /\
+        (forall p, In p ps -> complete_of p = true \/ state_of p = TS_CANCELLED)
+   else forall p, In p ps -> complete_of p = true) /\
   (s = TS_SCHEDULED \/ s = TS_PREEMPTED).
 Proof. exact ready_spec. Qed.
 Print Assumptions C18_ready_to_run.
@@ -206,7 +209,7 @@ Proof. split; vm_compute; reflexivity. Qed.
 (* ---- bridges: the hand-written documented forms (used by the monitors) are what the TRANSLATED source
    computes; an edit of the source (any/all, a state tuple) breaks these ---- *)
 Theorem C18_bridge_ready : forall g t,
-  is_ready_to_run (tg_terminal g t) (map (tg_complete g) (tg_parents g t)) (tg_state g t) = doc_ready g t.
+  is_ready_to_run (tg_complete g) (tg_state g) (tg_terminal g t) (tg_parents g t) (tg_state g t) = doc_ready g t.
 Proof. exact doc_ready_bridge. Qed.
 Print Assumptions C18_bridge_ready.
 Theorem C18_bridge_releasable : forall g, tg_releasable g = doc_releasable g.
